@@ -2230,6 +2230,16 @@ impl<T: PPGEvaluatorStrategy> PPGEvaluator<T> {
                             debug!("\tstill unknown validation status");
                         }
                         solid_vs => {
+                            // an ephemeral that has no record of its own output (it failed,
+                            // or was killed, when it last ran) can not be validated, even if
+                            // all its inputs are unchanged - there is nothing to validate.
+                            let solid_vs = if solid_vs == ValidationStatus::Validated
+                                && !history.contains_key(&jobs[node_idx as usize].job_id)
+                            {
+                                ValidationStatus::Invalidated
+                            } else {
+                                solid_vs
+                            };
                             set_node_state!(
                                 jobs[node_idx as usize],
                                 JobState::Ephemeral(JobStateEphemeral::NotReady(solid_vs),),
